@@ -465,13 +465,14 @@ def typed_local(e):
 class C03(Prop):
     id = "C03"
     title = "Compiled bytecode computes exactly what LPC semantics define"
-    lean_modules = ["NV.C03.Props", "NV.C03.Props2", "NV.C03.Props3", "NV.C03.Props4", "NV.C03.Props5", "NV.C03.Props6", "NV.C03.Witness"]
+    lean_modules = ["NV.C03.Props", "NV.C03.Props2", "NV.C03.Props3", "NV.C03.Props4", "NV.C03.Props5", "NV.C03.Props6", "NV.C03.Props7", "NV.C03.Witness"]
     theorems = []          # filled below
     witness_theorems = []
     consts = [("oldRangeBehavior", "NV_OLD_RANGE"), ("switchCaseSize", "SWITCH_CASE_SIZE"),
               ("mapHashTableSize", "MAP_HASH_TABLE_SIZE"), ("mapFillPercent", "FILL_PERCENT"),
-              ("mapMaxTableSize", "MAX_TABLE_SIZE"), ("mapHashOf4096", "MAP_POINTER_HASH(4096)")]
-    const_headers = ["lib/efuns/options.h", "src/interpret.h", "lib/lpc/mapping.h"]
+              ("mapMaxTableSize", "MAX_TABLE_SIZE"), ("mapHashOf4096", "MAP_POINTER_HASH(4096)"),
+              ("macroMarks", "MARKS"), ("macroNargs", "NARGS")]
+    const_headers = ["lib/efuns/options.h", "src/interpret.h", "lib/lpc/mapping.h", "lib/lpc/lex.h"]
     const_prelude = "#ifdef OLD_RANGE_BEHAVIOR\n#define NV_OLD_RANGE 1\n#else\n#define NV_OLD_RANGE 0\n#endif\n"
     quick_n = 1200
     thorough_n = 6000
@@ -499,12 +500,49 @@ class C03(Prop):
                    "`-=` on char lvalues (documented as supported, raises 'Bad left type to -=')",
                    "mapping hash-table growth is exercised by correspondence only (no table-level theorem)"]
 
+    def gen_extra(self, ctx, bdir):
+        """T4-style tie: the condition under which handle_define (lib/lpc/lex.c) replaces a body identifier by the marker of
+        parameter n is transcribed into `NV.Gen.C03.macroParamMatch`; Props7.lean proves that it is string equality."""
+        import re
+        from nvlib import extract as X
+        src = open(os.path.join(E.REPO, "lib/lpc/lex.c")).read()
+        m = re.search(r"static void handle_define \(char \*yyt\) \{(.*?)\n\}\n", src, re.S)
+        if not m:
+            raise X.TieBroken("guard:handle_define", "handle_define not found in lib/lpc/lex.c")
+        body = m.group(1)
+        g = re.search(r"for \(n = 0; n < arg; n\+\+\)\s*\{(.*?)if \((.*?)\)\s*\{\s*q -= idlen;", body, re.S)
+        if not g:
+            raise X.TieBroken("guard:handle_define", "parameter matching loop of handle_define not recognised")
+        pre, cond = g.group(1), " ".join(g.group(2).split())
+        if not re.search(r"\bl = strlen \(args\[n\]\);", pre):
+            raise X.TieBroken("guard:handle_define", "`l = strlen (args[n])` not found before the test: %s" % pre.strip())
+        atoms = []
+        for at in [a.strip() for a in cond.split("&&")]:
+            at = re.sub(r"^\((.*)\)$", r"\1", at).strip()
+            if at in ("l == idlen", "idlen == l"):
+                atoms.append("decide (l = idlen)")
+                continue
+            q = re.fullmatch(r"strncmp \(args\[n\], ids, (l|idlen)\) == 0", at) or re.fullmatch(r"!strncmp \(args\[n\], ids, (l|idlen)\)", at)
+            if q:
+                atoms.append("eqUpTo %s" % q.group(1))
+                continue
+            raise X.TieBroken("guard:handle_define", "atom outside the guard grammar: `%s` in `%s`" % (at, cond))
+        return ("\n/-- C (lib/lpc/lex.c handle_define): a body identifier of length `idlen` is replaced by parameter n iff\n"
+                "    `%s`  (l = strlen (args[n]); `eqUpTo k` = strncmp (args[n], ids, k) == 0) -/\n"
+                "def macroParamMatch (l idlen : Nat) (eqUpTo : Nat → Bool) : Bool := %s\n" % (cond.replace("-/", "- /"), " && ".join(atoms)))
+
     def prepare(self, ctx):
         self.exe = E.compile_harness("c03", [os.path.join(E.VERIF, "harness/c03/c03.c")], kind="c03")
+        self.exe_lex = E.compile_harness("c03lex", [os.path.join(E.VERIF, "harness/c03/c03lex.c")], kind="c03")
         self.conf = E.make_mudlib(ctx.rundir, master="/c03/master.c")
 
     def run_impl(self, ctx, cases):
         out = {}
+        # unit-style preprocessor cases go to the harness that #includes lib/lpc/lex.c
+        lexc = [c for c in cases if c.lines and c.lines[0].startswith("mdef ")]
+        if lexc:
+            out.update(E.run_harness(self.exe_lex, self.conf, lexc, ctx.rundir, args=["--timeout", "20"]))
+            cases = [c for c in cases if not (c.lines and c.lines[0].startswith("mdef "))]
         # chunks keep one crashing child from hiding the rest and bound the size of one harness stdin
         for k in range(0, len(cases), 200):
             out.update(E.run_harness(self.exe, self.conf, cases[k:k + 200], ctx.rundir, args=["--timeout", "20"]))
@@ -1357,8 +1395,36 @@ class C03(Prop):
         fns = [pre + [("ret", Arr(calls))], pre + [("ret", Arr(hands))]]
         return make_case(cid, fns, defines=defs, meta={"origin": "generated", "family": "macrosubst"})
 
+    def fam_mdef(self, rng, cid):
+        """unit-style: #define texts through the real handle_define (); the stored text (parameter markers) is dumped and
+        must equal the model's (Macro.lean) and the textbook template"""
+        lines = []
+        ops = ["+", "-", "*", "(", ")", " ", "  ", ",", "[", "]", "?", ":", "<", "##", "@", "@@", "\t", "'", ".", ";", "=="]
+        for m in range(rng.range(2, 6)):
+            np_ = rng.range(0, 4)
+            params = []
+            while len(params) < np_:
+                c = rng.choice(self.MAC_POOL + ["x", "xy", "p1", "p10", "_", "__a", "A", "aB"])
+                if c not in params:
+                    params.append(c)
+            words = list(params) * 2 + [q[:-1] for q in params if len(q) > 1] + [q + rng.choice("ab1_") for q in params] + \
+                ["a", "ab", "abc", "n", "sizeof", "0", "12", "1a", "a1b", "x"]
+            body = []
+            for _ in range(rng.range(0, 14)):
+                body.append(rng.choice(words) if rng.chance(1, 2) else rng.choice(ops))
+                if rng.chance(1, 3):
+                    body.append(" ")
+            if rng.chance(1, 5):
+                body.append('"%s"' % rng.choice(words))
+            sep = rng.choice([",", ", ", " , "])
+            if rng.chance(1, 6):
+                lines.append("mdef OBJ%d%s%s" % (m, rng.choice([" ", "  ", "\t"]), "".join(body) or "1"))
+            else:
+                lines.append("mdef FN%d(%s)%s%s" % (m, sep.join(params), rng.choice(["", " ", "  "]), "".join(body)))
+        return E.Case(cid, lines, {"origin": "generated", "family": "mdef"})
+
     FAMS = [("fam_binop", 9), ("fam_unop", 2), ("fam_incdec", 3), ("fam_index", 5), ("fam_range", 5), ("fam_lvalue", 6),
-            ("fam_switch", 6), ("fam_loop", 6), ("fam_assignop", 5), ("fam_literal", 2), ("fam_rewrite", 4), ("fam_macro", 3), ("fam_calls", 5), ("fam_mapalg", 7), ("fam_maptrace", 5), ("fam_macrosubst", 7)]
+            ("fam_switch", 6), ("fam_loop", 6), ("fam_assignop", 5), ("fam_literal", 2), ("fam_rewrite", 4), ("fam_macro", 3), ("fam_calls", 5), ("fam_mapalg", 7), ("fam_maptrace", 5), ("fam_macrosubst", 7), ("fam_mdef", 4)]
 
     def generate(self, rng, n, tier):
         out = []
@@ -1456,6 +1522,8 @@ PROP.theorems = ["NV.C03." + t for t in (
     "HT.grow_lookup", "HT.grow_wf", "HT.insert_lookup_same", "HT.insert_lookup_other", "HT.insert_wf",
     "HT.delete_lookup_same", "HT.delete_lookup_other", "HT.delete_wf", "HT.insert_refines", "HT.merge_refines",
     "HT.mapping_lookup_after_insert", "HT.empty_refines",
+    "Macro.macroParamMatch_iff", "Macro.matchParam_eq_paramOf", "Macro.specGo_eq", "Macro.scan_eq", "Macro.goRaw_blank",
+    "Macro.macro_definition_agrees", "Macro.macro_expansion_agrees",
     "wrap_id", "wrap_range", "tdiv_range", "tmod_range", "idiv_eq", "imod_eq")]
 PROP.witness_theorems = ["NV.C03." + t for t in (
     "witness_num_opeq_real", "witness_addeq_num_str", "assignop_agrees_Full_false", "witness_buf_store_zero",
